@@ -115,7 +115,7 @@ func C11(c *core.Ctx) {
 		for i := 0; i < c.N(300, 5000); i++ {
 			id := fmt.Sprintf("id-%06d-%c", i*7919%1000000, 'a'+byte(i%26))
 			var err error
-			if i%2 == 0 {
+			if (i/8)%2 == 0 { // runs of one mode: successive messages of exactly the same length at the same address
 				m := &protocol.Message{Tag: "t", Timestamp: 5, Record: map[string]interface{}{"k": "v"}, Options: &protocol.MessageOptions{Chunk: id}}
 				buf, err = m.MarshalMsg(buf[:0])
 			} else {
